@@ -224,7 +224,7 @@ func restStmtHook(t *tr, list []ast.Stmt, k func() string) (string, bool) {
 				if xt == tyRestMap {
 					ks := restKey(t, ix.Index)
 					rest.mapUsed["map_get"] = true
-					t.env[okv.Name] = tBool
+					t.bind(okv.Name, tBool, okv.Pos())
 					return "let " + cname(okv.Name) + " := (match map_get " + xs + " " + ks + " with Some _ => true | None => false end) in\n  " + restOf(), true
 				}
 			}
@@ -291,7 +291,7 @@ func restMapRange(t *tr, s *ast.RangeStmt, xs string) string {
 			acc = append(acc, v)
 		}
 	}
-	sort.Strings(acc)
+	t.sortDecl(acc)
 	if len(acc) == 0 {
 		return ""
 	}
@@ -303,8 +303,8 @@ func restMapRange(t *tr, s *ast.RangeStmt, xs string) string {
 	t.nloop++
 	name := fmt.Sprintf("%s_loop%d", strings.ReplaceAll(t.fn, ".", "_"), t.nloop)
 	saved := t.copyEnv()
-	t.env[kid.Name] = &ty{k: "int", w: 32}
-	t.env[vid.Name] = &ty{k: "int", w: 16}
+	t.bind(kid.Name, &ty{k: "int", w: 32}, kid.Pos())
+	t.bind(vid.Name, &ty{k: "int", w: 16}, vid.Pos())
 	body := t.stmts(s.Body.List, func() string { return tuple(acc) })
 	var params, cargs, accTy []string
 	for _, c := range closure {
@@ -387,12 +387,12 @@ func (p *pkg) restFunction(key string) string {
 	t.restDerefsGuarded(d)
 	var params []string
 	var sig []*ty
-	addParam := func(name string, te ast.Expr) {
+	addParam := func(name string, te ast.Expr, pos token.Pos) {
 		typ := t.goType(te)
 		if typ.k == "opt" && !usesNil(d.Body, name) {
 			typ = typ.elem
 		}
-		t.env[name] = typ
+		t.bind(name, typ, pos)
 		sig = append(sig, typ)
 		params = append(params, fmt.Sprintf("(%s : %s)", cname(name), typ.coq()))
 		if rest.nilPar[name] {
@@ -406,11 +406,11 @@ func (p *pkg) restFunction(key string) string {
 			t.fail(d, "unnamed receiver")
 		}
 		recvVar = f.Names[0].Name
-		addParam(recvVar, f.Type)
+		addParam(recvVar, f.Type, f.Pos())
 	}
 	for _, f := range d.Type.Params.List {
 		for _, id := range f.Names {
-			addParam(id.Name, f.Type)
+			addParam(id.Name, f.Type, id.Pos())
 		}
 	}
 	pre := ""
@@ -427,7 +427,7 @@ func (p *pkg) restFunction(key string) string {
 			for _, id := range f.Names {
 				resTy = append(resTy, typ)
 				t.results = append(t.results, id.Name)
-				t.env[id.Name] = typ
+				t.bind(id.Name, typ, id.Pos())
 				pre += "let " + cname(id.Name) + " := " + typ.zero() + " in\n  "
 			}
 		}
